@@ -577,7 +577,9 @@ XAtoms == << Tok("T1"), Tok("T2"), Tok("T3"), Tok("T8"), Tok("T9"),
              MkAtom("CV", "tok", "a", <<>>, <<>>, <<Impl("I1", "value")>>, ""),
              StructT("S1", "a", <<Fld("A", "T1"), FldT("D", "T8", "foreign"), FldT("E", "T3", "other")>>),
              TokIn("U1", "b"), TokIn("U2", "b"), StructT("S9", "b", <<Fld("A", "U1"), Fld("c", "U2")>>), TokIn("V1", "c"),
-             StructT("S2", "a", <<Fld("F", "T2"), Fld("G", "T3")>>) >>
+             StructT("S2", "a", <<Fld("F", "T2"), Fld("G", "T3")>>),
+             \* embedded fields: the field name is the type's name
+             StructT("S3", "a", <<FldT("T2", "T2", "embed"), FldT("T3", "*T3", "embed"), Fld("H", "T8")>>) >>
 XF(name, ins, out) == Func(name, ins, out, FALSE, FALSE)
 XInj(name, params, out, items, file) == [Inj(name, params, out, FALSE, FALSE, items) EXCEPT !.file = file]
 XProg(v) ==
@@ -714,6 +716,12 @@ XProg(v) ==
                      [] v = "inline-set-in-named-set" -> <<ItS(2), ItL(1)>>
                      [] v = "inline-set-conflict" -> <<ItL(1), ItL(2), ItS(1)>>
                      [] v = "inline-set-twice" -> <<ItS(1), ItL(1), ItS(2)>>, 1)>>)
+    [] v = "embedded-fields-struct" ->          \* wire.Struct over a struct with embedded fields (value and pointer), "*" and by name
+         mk(<<StructL("St", "S3", <<>>, TRUE), XF("P2", <<>>, "T2"), XF("PP3", <<>>, "*T3"), XF("P8", <<>>, "T8"), StructL("StN", "S3", <<"T3", "T2">>, FALSE)>>, <<>>,
+            <<XInj("Inject", <<>>, "*S3", <<ItL(1), ItL(2), ItL(3), ItL(4)>>, 1), XInj("InjectNamed", <<>>, "S3", <<ItL(5), ItL(2), ItL(3)>>, 1)>>)
+    [] v = "embedded-fields-fieldsof" ->        \* wire.FieldsOf selecting embedded fields by the type's name
+         mk(<<FieldsL("FO", "S3", <<"T2", "T3">>), XF("PS3", <<>>, "S3"), XF("Q", <<"T2", "*T3">>, "T1")>>, <<>>,
+            <<XInj("Inject", <<>>, "T1", <<ItL(1), ItL(2), ItL(3)>>, 1)>>)
     [] v = "same-set-twice-direct" ->          \* one set listed twice in the same call
          mk(<<XF("P2", <<>>, "T2"), XF("P1", <<"T2">>, "T1")>>, <<SetD("SetA", "a", <<ItL(1)>>)>>,
             <<XInj("Inject", <<>>, "T1", <<ItS(1), ItL(2), ItS(1)>>, 1)>>)
@@ -730,7 +738,8 @@ XVariants == {"star-foreign-tag-missing", "star-foreign-tag-ok", "two-files-firs
               "set-used-by-first-injector-only", "struct-fields-from-params-crossed", "inaccessible-value", "inaccessible-value-full-sig",
               "foreign-struct-star-full-sig", "unnamed-params-same-type-name", "set-through-plain-alias-package",
               "generic-injector", "method-injector",
-              "inline-set-partly-used", "inline-set-unused", "inline-set-in-named-set", "inline-set-conflict", "inline-set-twice"}
+              "inline-set-partly-used", "inline-set-unused", "inline-set-in-named-set", "inline-set-conflict", "inline-set-twice",
+              "embedded-fields-struct", "embedded-fields-fieldsof"}
 FamilyX(p, vs) == \E v \in vs : p = XProg(v)
 
 (* ======================================================================== *)
